@@ -563,6 +563,19 @@ func umax(t *Term) uint64 {
 		if t.A[1].IsConst() && t.A[1].C > 0 {
 			return t.A[1].C - 1
 		}
+	case OShl:
+		if t.A[1].IsConst() && t.A[1].C < 64 {
+			a := umax(t.A[0])
+			if r := a << t.A[1].C; r>>t.A[1].C == a && r <= mask(t.Sort.W) {
+				return r
+			}
+		}
+	case OSext:
+		// non-negative narrow value stays the same
+		w := t.A[0].Sort.W
+		if a := umax(t.A[0]); a < uint64(1)<<uint(w-1) {
+			return a
+		}
 	case OIte:
 		a, b := umax(t.A[1]), umax(t.A[2])
 		if a > b {
